@@ -731,6 +731,38 @@ def find_functions(src):
     n = len(toks)
     skip_until = -1
     depth_stack = []
+    impls = []          # (start index, end index, type name) of every `impl` block
+    for a in range(n):
+        if toks[a][0] == "ident" and toks[a][1] == "impl" and (a == 0 or toks[a - 1][1] in ("}", ";", "]", "pub") or toks[a - 1][0] in ("lcomment",)):
+            b = a + 1
+            depth = 0
+            header = []
+            while b < n and not (toks[b][1] == "{" and depth == 0):
+                if toks[b][1] == "<": depth += 1
+                elif toks[b][1] == ">": depth -= 1
+                elif toks[b][1] == ">>": depth -= 2
+                elif depth == 0: header.append(toks[b])
+                b += 1
+            if b >= n: continue
+            names = [t[1] for t in header if t[0] == "ident"]
+            if "for" in names: names = names[names.index("for") + 1:]
+            names = [x for x in names if x not in ("where",)]
+            tyname = names[-1] if names else "?"
+            if "where" in [t[1] for t in header]:
+                hn = [t[1] for t in header if t[0] == "ident"]
+                if "for" in hn: hn = hn[hn.index("for") + 1:]
+                tyname = hn[0] if hn else tyname
+            d = 1; e = b + 1
+            while e < n and d > 0:
+                if toks[e][1] == "{": d += 1
+                elif toks[e][1] == "}": d -= 1
+                e += 1
+            impls.append((b, e, tyname))
+    def impl_of(idx):
+        best = None
+        for a, e, ty in impls:
+            if a < idx < e and (best is None or a > best[0]): best = (a, e, ty)
+        return best[2] if best else None
     while i < n:
         k, tx, ln = toks[i]
         # #[cfg(test)] mod x { ... }
@@ -763,10 +795,12 @@ def find_functions(src):
                 f = Parser(sub).fn_item()
                 f["line"] = ln
                 f["tokens"] = [t[1] for t in toks[i:e]]
+                f["impl"] = impl_of(i)
                 key = name
                 if key in out:
                     key = "%s@%d" % (name, ln)
                 out[key] = f
+                if f["impl"]: out["%s::%s" % (f["impl"], name)] = f
             except UnsupportedSyntax as ex:
                 out[name if name not in out else "%s@%d" % (name, ln)] = dict(name=name, error=str(ex), line=ln, tokens=[t[1] for t in toks[i:e]])
             except RecursionError:
